@@ -8,6 +8,7 @@ from .. import pdadom as P
 from . import c16, c17
 from .. import c19obj
 from .. import c19fa
+from .. import c19rx
 from ..core import CaseResult, outcome
 
 ID = "C19"
@@ -22,9 +23,12 @@ RULE = ("random histories of 6-25 public query/conversion calls over a pool of l
         "_normal_form) are compared with the Lean state machine of the object; a fifth are histories on one automaton "
         "object that is edited between queries (add / remove transitions incl. epsilon moves, start and final marks): "
         "every query must answer as a freshly built automaton with the current structure and as the model of that "
-        "structure. Non-trivial: history "
+        "structure; a sixth are histories on a population of Regex objects that share their operands (Regex(text), union / "
+        "concatenate / kleene_star incl. an object with itself and inner nodes, to_epsilon_nfa, accepts, edits of the "
+        "automata handed out): every answer (state numbers included) and the private _counter / _enfa / _enfa_accepts "
+        "of every object against the Lean heap model, the verified matcher and fresh equal objects. Non-trivial: history "
         "with >=8 calls touching >=3 kinds of objects / >=5 calls of >=3 kinds on the grammar object.")
-EXPLANATION = "History independence is decided by running every call of a random history twice on the real code - on the live objects and on freshly rebuilt equal objects - and comparing canonical results and operand snapshots; a divergence is certified by the two runs themselves. The value-semantics of the individual operations is what C01-C18 prove; the one piece of hidden mutable state that survives a call - the in-place production counters and impact lists behind get_generating_symbols / get_nullable_symbols - is modelled step for step (Pfl/Model/CFGCounters.lean), proved to be restored by every run and to give history-independent answers (genCounters_restores, genCounters_history), and compared with the implementation's cached tables after every grammar call of a history. The grammar object as a whole is modelled as a state machine (Pfl/Model/CFGObject.lean: the four caches and the ten public methods that read or fill them, following the method bodies); history_independent proves that after any history every call answers what the grammar alone determines (the invariant: every cache holds only what a fresh object computes), and the implementation's answers and private cache fields are compared with the state machine after every call of a random history."
+EXPLANATION = "History independence is decided by running every call of a random history twice on the real code - on the live objects and on freshly rebuilt equal objects - and comparing canonical results and operand snapshots; a divergence is certified by the two runs themselves. The value-semantics of the individual operations is what C01-C18 prove; the one piece of hidden mutable state that survives a call - the in-place production counters and impact lists behind get_generating_symbols / get_nullable_symbols - is modelled step for step (Pfl/Model/CFGCounters.lean), proved to be restored by every run and to give history-independent answers (genCounters_restores, genCounters_history), and compared with the implementation's cached tables after every grammar call of a history. The grammar object as a whole is modelled as a state machine (Pfl/Model/CFGObject.lean: the four caches and the ten public methods that read or fill them, following the method bodies); history_independent proves that after any history every call answers what the grammar alone determines (the invariant: every cache holds only what a fresh object computes), and the implementation's answers and private cache fields are compared with the state machine after every call of a random history. Regex objects are modelled as a heap of objects sharing their operands by address (Pfl/Model/RegexObject.lean: the private state counter that is never reset, the counter lent to and taken back from the sons, the automaton cached by accepts); Pfl.RxObj.history_independent proves that along any history every call answers what the tree of the object determines (the automaton handed out is the Thompson automaton of a fresh object shifted by the current counter, thompson_shift, and accepts is membership), and counters and caches of every object are compared with the model after every call."
 THEOREMS = ["Pfl.CFG.genCounters_restores",
             "Pfl.CFG.genCounters_history",
             "Pfl.CFG.genCounters_generating",
@@ -39,7 +43,17 @@ THEOREMS = ["Pfl.CFG.genCounters_restores",
             "Pfl.CFG.Obj.answer_contains",
             "Pfl.IG.Obj.isEmpty_history_independent",
             "Pfl.IG.Obj.isEmpty_history_fresh",
-            "Pfl.IG.Obj.runCalls_total"]
+            "Pfl.IG.Obj.runCalls_total",
+            "Pfl.RxObj.process_spec",
+            "Pfl.RxObj.process_isSome",
+            "Pfl.RxObj.toENFA_spec",
+            "Pfl.RxObj.toENFA_lang",
+            "Pfl.RxObj.thompson_shift",
+            "Pfl.RxObj.step_inv",
+            "Pfl.RxObj.step_answer",
+            "Pfl.RxObj.accepts_exact",
+            "Pfl.RxObj.history_independent",
+            "Pfl.RxObj.step_isSome"]
 REGEX_TEXTS = ["a", "b", "a b", "a*", "a|b", "(a|b)*", "a b*", "$", "a (b|a)"]
 WORDS = [[], ["a"], ["b"], ["a", "b"], ["a", "a"], ["b", "a"], ["a", "b", "b"]]
 
@@ -49,6 +63,11 @@ def generate(rng, tier):
         if rng.random() < 0.2:
             # one automaton object edited between queries (mutators + queries), against fresh objects and the model
             yield {"fah": c19fa.gen_history(rng)}
+            continue
+        if rng.random() < 0.2:
+            # a population of regex objects sharing their operands: answers (state numbers included) and the
+            # private counters / caches of every object against Pfl/Model/RegexObject.lean
+            yield {"rh": c19rx.gen_history(rng)}
             continue
         if rng.random() < 0.3:
             # one grammar object as a state machine: answers and hidden state against Pfl/Model/CFGObject.lean
@@ -284,6 +303,9 @@ def run_case(case, drv):
         return res
     if "fah" in case:
         c19fa.run_history(case["fah"], drv, res)
+        return res
+    if "rh" in case:
+        c19rx.run_history(case["rh"], drv, res)
         return res
     specs, ops = case["pool"], case["ops"]
     kinds = {o["kind"] for o in ops}
